@@ -291,6 +291,31 @@ impl BobState {
     }
 }
 
+/// Verification hooks: the private frame codec, with messages crossing the boundary as postcard
+/// bytes.
+#[cfg(feature = "verif")]
+#[allow(missing_docs)]
+pub mod verif_codec {
+    use super::*;
+
+    pub fn decode_frame(src: &mut BytesMut) -> anyhow::Result<Option<Vec<u8>>> {
+        Ok(match SyncCodec.decode(src)? {
+            Some(msg) => Some(postcard::to_stdvec(&msg)?),
+            None => None,
+        })
+    }
+    pub fn decode_frame_eof(src: &mut BytesMut) -> anyhow::Result<Option<Vec<u8>>> {
+        Ok(match SyncCodec.decode_eof(src)? {
+            Some(msg) => Some(postcard::to_stdvec(&msg)?),
+            None => None,
+        })
+    }
+    pub fn encode_frame(message: &[u8], dst: &mut BytesMut) -> anyhow::Result<()> {
+        let message: Message = postcard::from_bytes(message)?;
+        SyncCodec.encode(message, dst)
+    }
+}
+
 #[cfg(test)]
 mod tests {
     use anyhow::Result;
